@@ -56,9 +56,9 @@ DESIGN_REF = "DESIGN.md §3 C15"
 EXHAUSTIVE = {"quick": "all behaviour sequences of length <=3 (x3 client modes); all LINE-event crash points of request_profile + 6 file-op points; all 70 two-writer schedules",
               "thorough": "all behaviour sequences of length <=4 (x3 client modes); crash points x2 body sizes; all 70 schedules x 3 body-size pairs"}
 MIN_COUNTERS = {"quick": {"seq_histories": 1500, "seq_steps": 5000, "crash_points": 20, "crash_followups": 20, "schedules": 70, "schedule_steps_observed": 250,
-                          "scan_runs": 3, "scan_requests": 90, "wrongserver_pairs": 60, "wrongserver_url_override_pairs": 20},
+                          "scan_runs": 3, "scan_requests": 90, "wrongserver_pairs": 60, "wrongserver_url_override_pairs": 20, "override_thread_runs": 8},
                 "thorough": {"seq_histories": 12000, "seq_steps": 45000, "crash_points": 40, "crash_followups": 40, "schedules": 210, "schedule_steps_observed": 750,
-                             "scan_runs": 30, "scan_requests": 900, "wrongserver_pairs": 400, "wrongserver_url_override_pairs": 40}}
+                             "scan_runs": 30, "scan_requests": 900, "wrongserver_pairs": 400, "wrongserver_url_override_pairs": 40, "override_thread_runs": 100}}
 
 # FI identities, incl. free-text ORG/FID as found in the bundled FI database ("Cavion/Phoenix") and worse
 IDENTS = [("ORG1", "F1"), ("Cavion/Phoenix", "125108887"), ("ORG1", "F1"), ("A B&C", "x:y*?"), (None, None), ("..", "../up"), ("ORG1", None), ("Ünï©ode", "汉")]
@@ -630,6 +630,74 @@ def scan_monitor(ctx, net):
         sys.setswitchinterval(old)
 
 
+def override_threads_monitor(ctx, net):
+    """ONE client object used by two threads for two servers through the per-call url= override (what a scan over several URLs
+    does): each server's profile ends up under that server's cache entry, whole, and a restarted client finds its own."""
+    from ofxtools.Client import OFXClient
+    from vf.monitors.linemon import LineMon
+
+    if ctx.tier == "quick" and ctx.shard >= 6:
+        return
+    ua, ub = URL + "/A", URL + "/B"
+    dates = {ua: dt_text(4), ub: dt_text(7)}
+    old = sys.getswitchinterval()
+    sys.setswitchinterval(1e-6)
+    try:
+        for r in range(2 if ctx.tier == "quick" else 8):
+            clear_cache()
+            asked = {}
+
+            def handler(rec):
+                u = rec["url"]
+                a = asked_date(rec["body"])
+                asked.setdefault(rec.get("client"), []).append((u, a))
+                if a and R.parse_datetime(a) >= R.parse_datetime(dates[u]):
+                    return Reply(ofxserver.profile_uptodate(), delay=0.002)
+                return Reply(ofxserver.profile_ok(dates[u], u, u, finame="SRV-" + u[-1], extra="z" * (40 if u == ua else 3)), delay=0.002)
+
+            net.handler = handler
+            net.set_client("shared")
+            client = OFXClient(ua, org="ORG1", fid="F1")
+            errors = []
+
+            def worker(url):
+                for _ in range(6):
+                    try:
+                        data = client.request_profile(url=url).read()
+                        if (b"SRV-" + url[-1].encode()) not in data:
+                            errors.append(f"request to {url} returned a profile that is not its server's")
+                    except BaseException as e:  # noqa
+                        errors.append(f"request to {url} failed: {e!r}"[:200])
+
+            lm = LineMon(os.environ.get("VF_REPO", "/repo"), p_yield=0.2, seed=ctx.seed + r, only_files=("Client.py",))
+            with lm:
+                ths = [threading.Thread(target=worker, args=(u,)) for u in (ua, ub)]
+                for t in ths:
+                    t.start()
+                for t in ths:
+                    t.join(timeout=120)
+            ctx.ev()
+            ctx.count("override_thread_runs")
+            ctx.count("override_thread_switches", lm.switches)
+            case = {"monitor": "override-threads", "run": r}
+            for e in errors[:3]:
+                ctx.violation("concurrent/url-override-mixed-up", f"run {r}: {e}", case)
+            # restarted clients, one per server: each must hold ITS server's profile
+            for u in (ua, ub):
+                net.set_client("restart" + u[-1])
+                try:
+                    data = OFXClient(u, org="ORG1", fid="F1").request_profile().read()
+                    a = asked["restart" + u[-1]][0][1]
+                    if (b"SRV-" + u[-1].encode()) not in data or R.parse_datetime(a) != R.parse_datetime(dates[u]):
+                        ctx.violation("concurrent/url-override-mixed-up", f"run {r}: after the threads a new client of {u} asked with {a} (its server's profile is dated "
+                                      f"{dates[u]}) and got {data[-60:]!r}", case)
+                except BaseException as e:  # noqa
+                    ctx.violation("concurrent/url-override-mixed-up", f"run {r}: after the threads a new client of {u} fails: {e!r}"[:300], case)
+            ctx.distinct(("override-threads", ctx.shard, r))
+    finally:
+        sys.setswitchinterval(old)
+
+
 # ------------------------------------------------------------------ 4. right server
 def wrongserver_monitor(ctx, net):
     from ofxtools.Client import OFXClient
@@ -713,6 +781,7 @@ def run_shard(ctx):
         wrongserver_monitor(ctx, net)
         schedules_monitor(ctx, net)
         scan_monitor(ctx, net)
+        override_threads_monitor(ctx, net)
     finally:
         net.remove()
     crash_monitor(ctx)
@@ -725,6 +794,8 @@ def replay(ctx, case):
         m = case["monitor"]
         if m == "seq":
             run_history(ctx, net, case["seq"], case["fresh"], case["variant"])
+        elif m == "override-threads":
+            override_threads_monitor(ctx, net)
         elif m == "wrongserver":
             ctx.seed = ctx.seed
             wrongserver_monitor(ctx, net)
